@@ -100,7 +100,8 @@ CHECKS["C20"] = {
     "custom": "c20",
     "rule": "case = one random behaviour generated by TLC's simulation mode from one of the five shipped .tla files as they are in the working tree, for RM={0,1,2,3}, MaxView in {1,2} (MaxUndeliveredMessages=6 for the multipool model) and every fault assignment the ASSUME clauses allow (none / one faulty / one dead / one faulty-and-dead, node drawn from VERIF_SEED); the spec's own TypeOK, InvTwoBlocksAccepted (InvTwoBlocksAcceptedAdvanced for centralizedCV) and InvFaultNodesCount are evaluated on every generated state under the shipped state constraint; "
             "non-trivial (measured on separately dumped behaviours only) = a behaviour in which a block is accepted and that contains a view > 0 or a bad/dead node; distinct = hash of the action-name sequence",
-    "quick": {"num": 1500, "dumpnum": 60, "depth": 80, "workers": 2, "parallel": 8, "timeout": 600},
+    "quick": {"num": 1500, "dumpnum": 60, "depth": 80, "workers": 2, "parallel": 8, "timeout": 900,
+              "deep": {"dbftCV3": {"1": 60000, "2": 15000}, "dbftCentralizedCV": {"1": 10000, "2": 10000}}, "deepworkers": 4},
     "thorough": {"num": 30000, "dumpnum": 400, "depth": 100, "workers": 2, "parallel": 8, "timeout": 3400, "deepnum": {"default": 900000, "dbftMultipool": 150000}},
     "assumptions": ["TLC (tla2tools 1.8.0) evaluates the specs faithfully", "random simulation, not exhaustive model checking: behaviours are sampled up to the stated depth", "liveness/temporal properties of the specs are not checked"],
 }
